@@ -133,6 +133,16 @@ class SmartList(list):
             raise ValueError("List only supports elements of type '%s'" %
                              self._content_type)
 
+        # Assigning an element to its own position changes nothing; an element
+        # of this list cannot replace another one, removing it from its current
+        # position would invalidate *key*.
+        if value is self[key]:
+            return
+
+        for obj in self:
+            if obj is value:
+                raise KeyError("Object is already an element of this list! " + str(value))
+
         # Names have to remain unique within the list
         for obj in self:
             if obj is not self[key] and obj is not value and \
